@@ -3,6 +3,7 @@
 package main
 
 import (
+	"sync"
 	"context"
 	"encoding/json"
 	"os"
@@ -39,6 +40,12 @@ type engineOpts struct {
 	// ContextKeys: further files the caller registers in the file cache under keys of its own, as the command line program
 	// does with "input" and "config" (key -> file name; a named file that does not exist is written empty).
 	ContextKeys map[string]string `json:"context_keys"`
+	// MainKey: the key under which the caller registers the main workflow file (default "workflow").
+	// Again: after the first Parse+Run, the same file cache object is parsed and run this many more times (run tags "again<i>").
+	// ParallelParses: instead, this many goroutines Parse (and Run) the same file cache object at once (run tags "par<i>").
+	MainKey        string `json:"main_key"`
+	Again          int    `json:"again"`
+	ParallelParses int    `json:"parallel_parses"`
 }
 
 func engineConfig() *config.Config {
@@ -121,7 +128,10 @@ func init() {
 			fc = loadfile.NewFileCache(dirArg, contents)
 		} else {
 			key = "workflow"
-			keys := map[string]string{"workflow": mainName}
+			if o.MainKey != "" {
+				key = o.MainKey
+			}
+			keys := map[string]string{key: mainName}
 			for k, name := range o.ContextKeys {
 				keys[k] = name
 				if _, statErr := os.Stat(filepath.Join(ctxDir, name)); statErr != nil {
@@ -159,6 +169,42 @@ func init() {
 			}
 			_ = os.Chdir(wd2)
 		}
+		input := []byte(o.InputYAML)
+		if len(c.Runs) > 0 && len(c.Runs[0].Input) > 0 && o.InputYAML == "" {
+			input = []byte(c.Runs[0].Input) // JSON is YAML
+		}
+		runOnce := func(tag string) RunResult {
+			wf, err := flow.Parse(fc, key)
+			if err != nil {
+				return RunResult{Tag: tag, Err: err.Error(), ErrType: "parse"}
+			}
+			outID, outData, _, err := wf.Run(context.Background(), input)
+			rr := RunResult{Tag: tag, OutID: outID}
+			if err != nil {
+				rr.Err, rr.ErrType = err.Error(), errType(err)
+			} else {
+				rr.Data = toJSON(outData)
+			}
+			return rr
+		}
+		if o.ParallelParses > 0 {
+			results := make([]RunResult, o.ParallelParses)
+			var wg sync.WaitGroup
+			start := make(chan struct{})
+			for i := 0; i < o.ParallelParses; i++ {
+				wg.Add(1)
+				go func(i int) {
+					defer wg.Done()
+					<-start
+					results[i] = runOnce("par" + itoa(i))
+				}(i)
+			}
+			close(start)
+			wg.Wait()
+			res.Runs = results
+			res.Extra = map[string]any{"cache_keys": len(fc.Files())}
+			return
+		}
 		splugin.Log("parse-call", "", 0, "", nil)
 		wf, err := flow.Parse(fc, key)
 		res.PrepConns = splugin.OpenConns.Load()
@@ -177,10 +223,6 @@ func init() {
 			res.Extra = map[string]any{"outputs_error_flag": outs}
 			return
 		}
-		input := []byte(o.InputYAML)
-		if len(c.Runs) > 0 && len(c.Runs[0].Input) > 0 && o.InputYAML == "" {
-			input = []byte(c.Runs[0].Input) // JSON is YAML
-		}
 		outID, outData, outIsErr, err := wf.Run(context.Background(), input)
 		rr := RunResult{OutID: outID}
 		if err != nil {
@@ -194,6 +236,12 @@ func init() {
 			outs[id] = out.Error()
 		}
 		res.Extra = map[string]any{"output_is_error": outIsErr, "outputs_error_flag": outs}
+		for i := 0; i < o.Again; i++ {
+			res.Runs = append(res.Runs, runOnce("again"+itoa(i+1)))
+		}
+		if o.Again > 0 {
+			res.Extra["cache_keys"] = len(fc.Files())
+		}
 		res.OpenConns = splugin.OpenConns.Load()
 		res.Census0, res.Leak, res.SettleMS = settle(1000)
 	}
